@@ -84,6 +84,10 @@ def run(ctx):
                      "find all (%(c)s or ((%(a)s = x) %(b)s)) maybe x", "find all %(c)s or ({(%(a)s = x) %(b)s} = s)", "find all (%(c)s = y) or ((%(a)s = x) (%(b)s = y) 'q')"):
             stale.append({"src": form % dict(a=a, b=b, c=c), "texts": ["ax c", "ac b", "a c", "a\nc", "ab c", "a-b 1c", "abx c b", "ac", "abc", "a1 - c", "ab- b-c"]})
     cases += stale + C02.abandoned_cases(rng, 60 if quick else 1500)
+    # a command that is one single literal (the shape a shortcut would single out), literals that overlap themselves, matches that touch
+    for lit in ("aa", "aba", "a\na", "abab", "a", "\n\n"):
+        for am in ("all", "skip 1", "skip 1 take 1", "last 2", "top 2"):
+            cases.append({"src": "find %s '%s'" % (am, lit), "texts": ["aaaa", "aaaaaa", "ababa", "a\na\na", "abababab", "\n\n\n", "aaa\naaa"]})
     gres, dis, stats = corr_core.run_core(cases, shards=12, spec=True)
     report_core_disagreements(ctx, cases, dis, in_scope=in_scope_core, known=known_core)
     ev = 0
